@@ -10,6 +10,15 @@ Definition lang_key (l : lang) : string :=
 Definition ext_of (l : lang) : string :=
   match l with Py => ".py" | Ts => ".ts" | Js => ".js" | Rs => ".rs" end.
 
+(* the file extensions of each language *)
+Definition ext_ok (l : lang) (e : string) : bool :=
+  match l with
+  | Py => String.eqb e ".py"
+  | Ts => String.eqb e ".ts" || String.eqb e ".tsx"
+  | Js => String.eqb e ".js" || String.eqb e ".jsx"
+  | Rs => String.eqb e ".rs"
+  end.
+
 Definition spec_section (c : config) : section := match lookup "srp" c with Some s => s | None => [] end.
 
 (* "Configuration Priority": language-specific setting, then top-level setting, then built-in default *)
@@ -26,13 +35,14 @@ Definition spec_keywords (s : section) : list string :=
   match sec_strs "keywords" s with Some l => l | None => ["Manager"; "Handler"; "Processor"; "Utility"; "Helper"] end.
 
 (* ------------------------------------------------------------------ the three metrics *)
-(* "Count public methods (excluding properties and private methods)"; private = name starts with _
+(* "Count public methods (excluding properties and private methods)": property getters, setters / deleters and
+   cached properties are the parts of a property, not methods of the public interface; private = name starts with _
    (which covers dunder methods); a constructor is the TS/JS counterpart of __init__; methods
    declared private / protected / #private are not public; static, class and async methods count *)
 Definition public_method (m : member) : bool :=
   match m_kind m with
   | MPlain | MAsync | MStatic | MClassM | MPublicKw | MPubFn => negb (starts_with "_" (m_name m))
-  | MProperty | MCtor | MPrivateKw | MProtectedKw | MHashPrivate | MField => false
+  | MProperty | MSetter | MCachedProp | MCtor | MPrivateKw | MProtectedKw | MHashPrivate | MField => false
   end.
 Definition spec_methods (ms : list member) : nat := List.length (filter public_method ms).
 
@@ -92,8 +102,9 @@ Definition spec_report (c : config) (f : sfile) : list rep :=
 Definition comment_marker (l : lang) : string := match l with Py => "#" | _ => "//" end.
 Definition block_marker : string := "/*".
 
-(* the kind of a line agrees with its text *)
+(* the kind of a line agrees with its text (after strip); ASCII only (str.strip also removes non-ASCII spaces) *)
 Definition line_good (l : lang) (x : line) : bool :=
+  ascii_only (l_raw x) &&
   match l_kind x with
   | LBlank => String.eqb (l_text x) ""
   | LComment => starts_with (comment_marker l) (l_text x)
@@ -105,9 +116,9 @@ Definition line_good (l : lang) (x : line) : bool :=
 
 Definition mkind_ok (l : lang) (k : mkind) : bool :=
   match l, k with
-  | Py, (MPlain | MAsync | MStatic | MClassM | MProperty | MField) => true
-  | Ts, (MPlain | MAsync | MStatic | MProperty | MCtor | MPublicKw | MPrivateKw | MProtectedKw | MHashPrivate | MField) => true
-  | Js, (MPlain | MAsync | MStatic | MProperty | MCtor | MHashPrivate | MField) => true
+  | Py, (MPlain | MAsync | MStatic | MClassM | MProperty | MSetter | MCachedProp | MField) => true
+  | Ts, (MPlain | MAsync | MStatic | MProperty | MSetter | MCtor | MPublicKw | MPrivateKw | MProtectedKw | MHashPrivate | MField) => true
+  | Js, (MPlain | MAsync | MStatic | MProperty | MSetter | MCtor | MHashPrivate | MField) => true
   | Rs, (MPlain | MAsync | MStatic | MField | MPubFn) => true
   | _, _ => false
   end.
@@ -146,7 +157,7 @@ Definition impl_good (n : nat) (i : rimpl) : bool :=
   && forallb (member_good Rs) (i_members i).
 
 Definition file_good (f : sfile) : bool :=
-  String.eqb (f_ext f) (ext_of (f_lang f))
+  ext_ok (f_lang f) (f_ext f)
   && forallb (line_good (f_lang f)) (f_lines f)
   && match f_lang f with
      | Rs => forallb (struct_good (List.length (f_lines f))) (f_structs f) && forallb (impl_good (List.length (f_lines f))) (f_impls f)
@@ -175,7 +186,14 @@ Definition is_tsjs (f : sfile) : bool := is_lang Ts f || is_lang Js f.
 Definition free_py_hash (f : sfile) : bool :=
   negb (is_lang Py f) || forallb (fun x => negb (lkind_eqb (l_kind x) LStrHash)) (f_lines f).
 Definition nonpublic (k : mkind) : bool := match k with MPrivateKw | MProtectedKw | MHashPrivate => true | _ => false end.
-Definition accessor (k : mkind) : bool := match k with MProperty => true | _ => false end.
+Definition accessor (k : mkind) : bool := match k with MProperty | MSetter => true | _ => false end.
+Definition is_setter (k : mkind) : bool := match k with MSetter => true | _ => false end.
+Definition is_cached (k : mkind) : bool := match k with MCachedProp => true | _ => false end.
+(* no property setter / deleter, no cached property (Python) *)
+Definition free_py_setter (f : sfile) : bool :=
+  negb (is_lang Py f) || forallb (fun c => forallb (fun m => negb (is_setter (m_kind m))) (c_members c)) (f_classes f).
+Definition free_py_cached (f : sfile) : bool :=
+  negb (is_lang Py f) || forallb (fun c => forallb (fun m => negb (is_cached (m_kind m))) (c_members c)) (f_classes f).
 Definition free_ts_nonpublic (f : sfile) : bool :=
   negb (is_tsjs f) || forallb (fun c => forallb (fun m => negb (nonpublic (m_kind m))) (c_members c)) (f_classes f).
 Definition free_ts_accessor (f : sfile) : bool :=
